@@ -200,7 +200,11 @@ def _perm_cases(tier):
 def check_model(case):
     X = np.ascontiguousarray(np.array(case["X"], dtype=np.float64))
     n, d = X.shape
-    y = X @ np.array(case["beta"]) + np.where(X[:, 0] > case["knot"], case["jump"], 0.0) + case["amp"] * np.array(case["noise"][:n])
+    X0_ = X
+    if case.get("xoffset"):
+        X = X.copy()
+        X[:, 0] += float(case["xoffset"])            # a feature with a large offset relative to its spread (a year, a timestamp, a zip code)
+    y = X0_ @ np.array(case["beta"]) + np.where(X0_[:, 0] > case["knot"], case["jump"], 0.0) + case["amp"] * np.array(case["noise"][:n])
     crit = case["criterion"]
     w = None
     if crit == "simple" and case["w"] is not None:
@@ -237,6 +241,8 @@ def check_model(case):
     require(len(leaves) == 1 or bool(np.all(t.n_node_samples[leaves] >= case["min_samples_leaf"])), "min_samples_leaf",
             "leaf sizes %r" % t.n_node_samples[leaves].tolist(), facts)
     Q = np.ascontiguousarray(np.array(case["Q"], dtype=np.float64).reshape(-1, d))
+    if case.get("xoffset") and len(Q):
+        Q[:, 0] += float(case["xoffset"])
     app_tr = m.apply(X)
     pred_tr = m.predict(X)
     require(pred_tr.shape == (n,), "predict:shape", "%r" % (pred_tr.shape,), facts)
@@ -249,21 +255,26 @@ def check_model(case):
         require(ind.sum() == t.n_node_samples[leaf], "leaf:training-rows", "leaf %d" % leaf, facts)
         Xl, yl = X[ind], y[ind]
         if crit == "mselin":
-            A = np.hstack([Xl, np.ones((len(Xl), 1))])
+            # reference: least squares on the CENTRED design (same column space as [X, 1], well conditioned whatever offset the features carry)
+            mu = Xl.mean(axis=0)
+            A = np.hstack([Xl - mu, np.ones((len(Xl), 1))])
             beta, *_ = np.linalg.lstsq(A, yl, rcond=None)
             proj = A @ beta
             err = np.abs(pred_tr[ind] - proj).max()
             good = len(Xl) > d + 1 and np.linalg.cond(A) < 1e6
+            # a design carrying an offset of 1e3..1e5 is full rank but ill conditioned (1e6..1e10): an SVD solve in double precision still
+            # gives the fitted values to about cond * eps
+            ltol = (1e-6 if not case.get("xoffset") else 1e-4) * scale
             if good or len(Xl) <= d + 1:
                 # projection of y on span[X,1] is unique; compare on training rows
-                require(err <= 1e-6 * scale, "mselin:leaf-fit", "leaf %d (%d rows): max deviation from the least-squares fit %.3g" % (leaf, len(Xl), err), facts)
+                require(err <= ltol, "mselin:leaf-fit", "leaf %d (%d rows): max deviation from the least-squares fit %.3g" % (leaf, len(Xl), err), facts)
             if good:
                 wellcond += 1
                 qi = app_q == leaf
                 if qi.any():
-                    ref = np.hstack([Q[qi], np.ones((int(qi.sum()), 1))]) @ beta
+                    ref = np.hstack([Q[qi] - mu, np.ones((int(qi.sum()), 1))]) @ beta
                     errq = np.abs(pred_q[qi] - ref).max()
-                    require(errq <= 1e-6 * scale * (1 + np.abs(Q[qi]).max()), "mselin:query-row", "leaf %d: deviation %.3g" % (leaf, errq), facts)
+                    require(errq <= ltol * (1 + np.abs(Q[qi] - mu).max()), "mselin:query-row", "leaf %d: deviation %.3g" % (leaf, errq), facts)
         else:
             ww = np.ones(len(yl)) if w is None else w[ind]
             mean = float((ww * yl).sum() / ww.sum())
@@ -274,7 +285,7 @@ def check_model(case):
                 require(np.abs(pred_q[qi] - mean).max() <= 1e-9 * scale, "simple:query-row", "leaf %d" % leaf, facts)
     nl = len(leaves)
     return Outcome([crit, "leaves=1" if nl == 1 else ("leaves<=4" if nl <= 4 else "leaves>4"), "weights" if w is not None else "unit",
-                    "d=%d" % d, "has-wellcond-leaf" if wellcond else "no-wellcond-leaf", "failed-fit-first:" + str(facts["bad_first"])], nl >= 2)
+                    "d=%d" % d, "has-wellcond-leaf" if wellcond else "no-wellcond-leaf", "failed-fit-first:" + str(facts["bad_first"]), "xoffset=%g" % float(case.get("xoffset") or 0)], nl >= 2)
 
 
 _u = st.integers(-999983, 999983).map(lambda v: v / 1e6)
@@ -294,7 +305,7 @@ def _model_cases(draw, tier="quick"):
                 w=draw(st.one_of(st.none(), st.lists(st.integers(1, 16).map(lambda v: v / 4.0), min_size=60, max_size=60))),
                 Q=[[draw(st.integers(-36, 36)) / 4.0 for _ in range(d)] for _ in range(mq)],
                 bad_first=draw(st.sampled_from([None, None, None, "nan-y", "short-weights", "negative-depth"])),
-                wscale=draw(st.sampled_from([1.0, 1.0, 1e-13, 1e6])))
+                wscale=draw(st.sampled_from([1.0, 1.0, 1e-13, 1e6])), xoffset=draw(st.sampled_from([0, 0, 0, 1e3, 1e5])))
 
 
 CLAUSES = [
